@@ -24,6 +24,12 @@ CLAIMED = {
          'NULL-handle branches); descriptor fields reset to -1 after every raw close; no pointer stored into static storage. Shared mutable state is the only in-process '
          'channel between handles in single-threaded use, so these are necessary conditions; interleaving semantics themselves are not decided.',
          'whole-program inventory + effect summaries + must-precede path rules over clang AST/CFG'),
+ 'C16': ('DESIGN.md §4 C16',
+         'Ownership clauses decided on every CFG path: all SF_PRIVATE-owned pointer fields that ever receive a fresh allocation are freed in psf_close; nested private-struct '
+         'resources are released from the close hooks; no release in psf_close / a close hook can be skipped by an early return once its guards hold; releasing hooks are installed '
+         'before any failing return that follows an acquisition; no local allocation reaches a function exit unreleased; failed opens pass psf_close and set sf_errno; temp files are '
+         'fclosed and removed. Leaks that depend on histories of API calls are not decided.',
+         'ownership dataflow + control-dependence (guarded release no-skip) + dominance rules over clang CFG'),
 }
 REASONS = {}
 DEFAULT_REASON = 'check not built yet (work in progress); see DESIGN.md'
